@@ -581,3 +581,25 @@ def c08_name_of_blank_cell_input(w, v):
                 return True
     return False
 
+
+
+# functions whose own argument conversion hands the text to python's float() /
+# int() (call sites seen when the finding was recorded; any other function
+# accepting such a text is reported)
+_PYTEXT_SITES = frozenset((
+    'ADDRESS', 'DATE', 'DATEDIF', 'DAY', 'DEC2BIN', 'DEC2HEX', 'DEC2OCT',
+    'FORECAST', 'FORECAST.LINEAR', 'FV', 'HOUR', 'IPMT', 'ISEVEN', 'ISODD', 'LEFT',
+    'MID', 'MINUTE', 'MONTH', 'MUNIT', 'NORM.DIST', 'NORM.INV', 'NORM.S.DIST',
+    'NORMDIST', 'NORMINV', 'NORMSDIST', 'NPER', 'PMT', 'PPMT', 'PV', 'RATE',
+    'REPLACE', 'RIGHT', 'ROMAN', 'SECOND', 'TIME', 'VALUE', 'WEEKDAY', 'YEAR'))
+
+
+@matcher('c11_python_only_numeral_accepted')
+def c11_python_only_numeral_accepted(w, v):
+    """A text with python's digit separator ("1_0", "1_000.5") is read as a
+    number by the functions that convert their arguments themselves with
+    float() / int() (directly or after _text2num returned the text unchanged);
+    the default argument parser (_float) rejects it."""
+    if not v['sig'].startswith('pytext-accepted:'):
+        return False
+    return w.get('function') in _PYTEXT_SITES and '_' in str(w.get('text'))
